@@ -287,8 +287,13 @@ def run(prog, rep, tier, repo):
                         okn = okzip and _is_lookahead(g, rv, fn, mp[2][1][3])
                 if isp and same and tag(pt) == 'local' and pt[2] == 'params':
                     okp = True
+        # the look-ahead point built by an in-crate helper with a loop of its own (`self.look_ahead(&params, &velocity)`) is not read
+        helper_pt = any(tag(s_.value) == 'call' and short(s_.value[1]) == 'wrt' and len(s_.value[2]) > 1 and tag(s_.value[2][1]) == 'call' and
+                        s_.value[2][1][1] in pdb.bodies for s_ in gs)
         if okn and okp:
             rep.ok('recurrence', key, 'nesterov: gradient at theta - momentum*u; plain: gradient at theta')
+        elif helper_pt and okp:
+            rep.undecided('recurrence', key, 'the look-ahead point is built by an in-crate helper whose body is not read', site_of(f.body), proof=False)
         elif len(gs) != 2 or not all(tag(s_.value) == 'call' and short(s_.value[1]) == 'wrt' for s_ in gs):
             rep.undecided('recurrence', key, 'gradient evaluation idiom not read (expected two definitions of the gradient, one per value of the nesterov flag)', site_of(f.body), proof=False)
         else:
@@ -308,7 +313,9 @@ def run(prog, rep, tier, repo):
         undec_acc = []
         rho = None
         if len(cps) != 1:
-            problems.append('expected exactly one overwrite of the parameters by the proposal')
+            # the accepted proposal is not installed by one `params.copy_from_slice(&new_params)` (values carried as plain f64 and re-registered
+            # on the tape each turn, say): the acceptance idiom is not read
+            undec_acc.append('the accepted proposal is not installed by a single copy_from_slice (%d found): acceptance idiom not read' % len(cps))
         else:
             gs = f.guards().get(cps[0].bb, [])
             acc = [cn for cn, v in gs if v is True and tag(cn) == 'bin' and cn[1] == 'Gt' and tag(cn[3]) == 'const' and cn[3][2] == 0.0]
@@ -363,7 +370,7 @@ def run(prog, rep, tier, repo):
         # other writes of params only re-wrap the same values on the tape
         for s in writes:
             v = s.value
-            if not (tag(v) == 'call' and short(v[1]) == 'collect'):
+            if len(cps) == 1 and not (tag(v) == 'call' and short(v[1]) == 'collect'):
                 problems.append('parameters are also overwritten by %s' % show(v)[:60])
         if undec_acc and not problems:
             rep.undecided('lm', key, '; '.join(undec_acc), site_of(f.body), proof=False)
@@ -414,6 +421,8 @@ def run(prog, rep, tier, repo):
             else:
                 (rep.ok if ok else rep.viol)('lm', key, 'J, J^T J, J^T r and r are recomputed whenever a proposal is accepted' if ok else
                                              'only %s are refreshed after accepting a proposal: the returned covariance is not at the returned point' % sorted(upd), site_of(f.body))
+        else:
+            rep.undecided('lm', key, 'the point where a proposal is accepted is not read (no copy_from_slice of the parameters)', site_of(f.body), proof=False)
     rep.floor('lm', 3, 'acceptance, covariance, state coherence')
     return {}
 
@@ -486,7 +495,16 @@ def _early_stop(prog, rep, f, name):
         if not (tag(b) == 'const' and isinstance(b[2], float) and 0 < b[2] < 1e-10 and mentions_rel_diff(a)):
             return False
         # the compared quantity is the largest relative change: max(..) directly, or a local holding it
-        return (tag(a) == 'call' and a[1] == 'statistics::order::max') or tag(a) == 'local'
+        if (tag(a) == 'call' and a[1] == 'statistics::order::max') or tag(a) == 'local':
+            return True
+        # the maximum written as a fold: `.fold(seed, |acc, d| f64::max(acc, d))`
+        if tag(a) == 'call' and short(a[1]) == 'fold' and len(a[2]) == 3 and tag(a[2][2]) == 'agg' and a[2][2][1] == 'closure':
+            gm = prog.func(a[2][2][2])
+            rvm = gm.return_values() if gm is not None else []
+            if len(rvm) == 1 and tag(rvm[0]) == 'call' and is_f64_method(rvm[0][1]) and f64_method_name(rvm[0][1]) == 'max' and \
+                    {z[1] for z in rvm[0][2] if tag(z) == 'arg'} == {2, 3}:
+                return True
+        return False
 
     def classify(cn, v):
         """'limit' / 'converged' / 'other' / None(unknown)"""
